@@ -484,6 +484,9 @@ func (r *Run) writeEvidence(violations int, seenKnown map[string]int) {
 		cov["discharged"] = r.Proof.Discharged
 		cov["checker_cmd"] = r.Proof.Cmd
 		cov["theorems"] = r.Proof.Theorems
+		if r.Proof.Axioms == nil {
+			r.Proof.Axioms = []string{}
+		}
 		cov["axioms"] = r.Proof.Axioms
 		if r.Proof.Err != "" {
 			cov["proof_error"] = r.Proof.Err
@@ -492,10 +495,15 @@ func (r *Run) writeEvidence(violations int, seenKnown map[string]int) {
 	for k, v := range r.Extra {
 		cov[k] = v
 	}
+	notes := r.Notes
+	if notes == nil {
+		notes = []string{}
+	}
+	notes = append(notes, "the model is hand-written; its tie to /repo is this run's correspondence on sampled schemas/values", "no axioms are used (Print Assumptions: closed under the global context) unless listed under coverage.axioms")
 	ev := map[string]any{
 		"property_id": r.Property, "tier": r.Tier, "seed": r.Seed, "level": "proof",
 		"coverage": cov, "wall_s": time.Since(r.Start).Seconds(), "violations": violations,
-		"assumptions": r.Notes,
+		"assumptions": notes,
 	}
 	os.MkdirAll(filepath.Join(VerifRoot(), "evidence"), 0o755)
 	b, _ := json.MarshalIndent(ev, "", " ")
